@@ -365,8 +365,9 @@ class MIOPopulation:
             ):
                 return True
 
-        # Compare length otherwise
-        return candidate.size() <= current.size()
+        # Compare length otherwise: only a strictly shorter test replaces the archived one,
+        # an equally long (and possibly failing) one does not.
+        return candidate.size() < current.size()
         # TODO(fk) support other secondary objectives?
 
 
